@@ -20,6 +20,7 @@ IDMAP_LOOKUP = "nervusdb_storage::idmap::IdMap::lookup"
 
 def run(ctx):
     F = ctx.facts
+    _bitmap_flush_rule(ctx)
     ctx.rule("C02.1", "WAL appends are bracketed BeginTx .. CommitTx under one uninterrupted WAL guard")
     ctx.rule("C02.2", "commit mutates pages / node table only after CommitTx is appended and fsynced")
     ctx.rule("C02.3", "replay keeps the CreateNode idempotence skip and has an explicit arm per WalRecord variant")
@@ -158,3 +159,28 @@ def scanner_rule(ctx, rid):
                    "commit): those records are replayed as part of the next committed transaction — recovery applies a non-prefix", sb.file,
                    sample={"scanner": i})
     ctx.floor(rid, "log scanners that group records into transactions", scanners, 2)
+
+
+def _bitmap_flush_rule(ctx):
+    """C02.5: an allocation-bitmap change is flushed before the Pager method that made it reports success"""
+    from .. import paths
+    F = ctx.facts
+    ctx.rule("C02.5", "in every Pager method that flips an allocation bit, each success return after the flip passes through flush_meta_and_bitmap (the on-disk bitmap never lags behind pages a committed WAL record may reference)")
+    SET = "nervusdb_storage::pager::Bitmap::set_allocated"
+    FLUSH = "nervusdb_storage::pager::Pager::flush_meta_and_bitmap"
+    n = 0
+    for i, b in sorted(F.bodies.items()):
+        if not i.startswith("nervusdb_storage::pager::Pager::") or "::tests::" in i or b.root or i.endswith("write_vacuum_copy"):
+            continue
+        flips = [c for c in b.calls() if c.name == SET]
+        if not flips:
+            continue
+        flushes = [c.bb for c in b.calls() if c.name == FLUSH]
+        for k, c in enumerate(flips):
+            n += 1
+            rets = paths.success_returns_reachable(b, [c.target], avoid=flushes) if (c.target is not None and c.target not in flushes) else []
+            ctx.instance("C02.5", "%s: bit flip #%d reaches a success return without flush_meta_and_bitmap: %s" % (i.split("::")[-1], k, bool(rets)))
+            ctx.oblige(not rets, "C02.5", "%s:bit-flip#%d-unflushed" % (i.split("::")[-1], k),
+                       "%s can return Ok after changing an allocation bit only in memory: after a crash the page is unallocated on disk although a committed "
+                       "(fsynced) manifest / checkpoint record references it, and open fails with PageNotAllocated" % i.split("::")[-1], c.loc())
+    ctx.floor("C02.5", "allocation-bit flips in Pager methods", n, 2)
